@@ -17,7 +17,7 @@ def origin_stage(seed, n, tier):
     unis = {}
     for i in range(n):
         r = util.rng(seed, PROP, "uni", i)
-        src, roots, kinds = rustgen.gen_universe(r)
+        src, roots, kinds = rustgen.gen_universe(r, index=i)
         uid = "u%04d" % i
         emit = "pub fn emit() -> ::serde_json::Value {\n    ::serde_json::json!({\n" + \
             "".join('        "%s": ::schemars::schema_for!(%s),\n' % (rt, rt) for rt in roots) + "    })\n}\n"
